@@ -132,7 +132,7 @@ macro_rules! f32_newtype {
 		}
 	};
 }
-f32_newtype!(Decibels, "Decibels", [0.0f32, -60.0, -6.0, 6.0]);
+f32_newtype!(Decibels, "Decibels", [0.0f32, -120.0, -6.0, 6.0, -60.0]);
 f32_newtype!(Panning, "Panning", [0.0f32, -1.0, 1.0, 0.25]);
 f32_newtype!(Mix, "Mix", [0.0f32, 1.0, 0.5, 0.25]);
 macro_rules! f64_newtype {
@@ -483,8 +483,8 @@ fn lattice_cases() -> u64 {
 	NTYPES * start_modes().len() as u64 * DURS.len() as u64 * easings().len() as u64
 }
 /// tweens observed through the whole engine (AudioManager + device callbacks of arbitrary sizes)
-const ENGINE_CASES: u64 = 8;
-const ENGINE_NAMES: [&str; 8] = [
+const ENGINE_CASES: u64 = 9;
+const ENGINE_NAMES: [&str; 9] = [
 	"engine: tweener modulator 0->1 over 2 s linked to a sound's volume, 6 callback partitions of 32 frames (internal buffer 4)",
 	"engine: sound set_volume(-20 dB -> 0 dB over 2 s), 6 callback partitions",
 	"engine: clock set_speed(1 -> 4 ticks/s over 2 s) while the clock is not ticking, start 3 s later, 6 callback partitions",
@@ -493,6 +493,7 @@ const ENGINE_NAMES: [&str; 8] = [
 	"engine: listener set_position tween seen by an effect on a spatial track: each chunk starts where the previous one ended, 6 callback partitions",
 	"engine: spatial track set_position(x = 1 -> 17 over 2 s) while a sound plays on it, linear attenuation over 1..17: the level follows the distance frame by frame, 6 callback partitions",
 	"engine: streaming sound set_volume(0 dB -> -20 dB over 1 s) while its decoder delivers nothing for 4 s (6 callback partitions): when audio comes back the tween has long ended",
+	"engine: paused sound / track, resume_at(Delayed 1 s, fade-in of 2 s with a non-linear easing): once the start time is reached the fade follows its easing (chunk ends)",
 ];
 
 impl C06 {
@@ -1293,6 +1294,59 @@ fn engine_pass(which: u64, ctx: &mut Ctx) {
 				ctx.state(hash64(&(which, out.len())));
 				ctx.outcome(hash64(&(which, out.len())));
 				continue;
+			}
+			8 => {
+				use kira::track::TrackBuilder;
+				// the fade-in of a DEFERRED resume is the tween that was given: easing and duration
+				for (host_is_track, easing) in [(false, Easing::OutPowi(2)), (false, Easing::InPowi(3)), (true, Easing::OutPowi(2)), (true, Easing::InOutPowi(2))] {
+					let mut m = rig::manager(SR, IBS, rig::caps(2), MainTrackBuilder::new());
+					let mut t = m.add_sub_track(TrackBuilder::new()).expect("track");
+					let mut h = t.play(rig::static_data(SR, rig::dc_frames(4, 0.5)).loop_region(Region::from(..))).expect("play");
+					let mut sink = vec![];
+					rig::render_stereo(&mut m, IBS, &mut sink);
+					let instant = Tween { start_time: StartTime::Immediate, duration: Duration::ZERO, easing: Easing::Linear };
+					let fade = Tween { start_time: StartTime::Immediate, duration: Duration::from_secs(2), easing };
+					if host_is_track {
+						t.pause(instant);
+					} else {
+						h.pause(instant);
+					}
+					rig::render_stereo(&mut m, IBS, &mut sink);
+					if host_is_track {
+						t.resume_at(StartTime::Delayed(Duration::from_secs(1)), fade);
+					} else {
+						h.resume_at(StartTime::Delayed(Duration::from_secs(1)), fade);
+					}
+					// aligned callbacks: 1 s delay = 8 frames = 2 chunks, fade 16 frames = 4 chunks
+					let mut out: Vec<(f32, f32)> = vec![];
+					for _ in 0..8 {
+						rig::render_stereo(&mut m, IBS, &mut out);
+						ctx.transitions += 1;
+					}
+					// the fade volume at the end of the k-th chunk of the fade is -60 dB x (1 - ease(k / 4)); the delay is counted
+					// in whole chunks, so the fade starts with the chunk in which the delay runs out or the one after it
+					let level = |k: usize| -> f64 {
+						let x = (k as f64 / 4.0).min(1.0);
+						let e = ref_ease(easing, x);
+						let db = -60.0 * (1.0 - e);
+						if db <= -60.0 { 0.0 } else { 0.5 * 10f64.powf(db / 20.0) }
+					};
+					let ends: Vec<f64> = (0..8).map(|c| out[c * IBS + IBS - 1].0 as f64).collect();
+					let fits = |first: usize| (0..8).all(|c| {
+						let want = if c < first { 0.0 } else { level(c - first + 1) };
+						(ends[c] - want).abs() <= 1e-5 + 1e-4 * want
+					});
+					if !(fits(1) || fits(2) || fits(3)) {
+						ctx.fail(
+							"the fade-in of a deferred resume (resume_at with a later start time) does not follow the easing of the tween it was given :: engine #8".to_string(),
+							format!("{}; {} paused, resume_at(Delayed(1 s), Tween {{ 2 s, {:?} }}): level at the end of each 4-frame chunk {:?}; expected 0 until the delay has run out, then 0.5 x 10^(-3 (1 - ease(k/4))) for k = 1..4: {:?}", desc(), if host_is_track { "track" } else { "sound" }, easing, ends, (1..=4).map(level).collect::<Vec<_>>()),
+						);
+					}
+					ctx.nontrivial_extra += 1;
+					ctx.state(hash64(&(which, host_is_track, format!("{:?}", easing))));
+				}
+				ctx.outcome(hash64(&(which, 0)));
+				break;
 			}
 			_ => {
 				let mut c = m.add_clock(ClockSpeed::TicksPerSecond(1.0)).expect("clock");
